@@ -13,7 +13,7 @@
 
     Devices, registers, layouts and detuning maps are opaque ([VJson]): their
     own codecs are the subject of C17.  Executable definitions only. *)
-From Coq Require Import ZArith List Bool String Ascii.
+From Coq Require Import ZArith List Bool String Ascii DecimalString.
 From Coq Require Import PrimFloat.
 From PV Require Import Model.Base Model.AbsJson Gen.AbsSig.
 Import ListNotations.
@@ -335,7 +335,7 @@ Record seqin := mkSeqin {
   s_name : string;
   s_calls : list call;                      (* chain(_calls, _to_build_calls), with __init__ *)
   s_vars : list (string * (bool * Z));      (* name -> (dtype is int, size) *)
-  s_qids : list string;                     (* register.qubit_ids, in order *)
+  s_qids : list val;                        (* register.qubit_ids, in order (str or int ids) *)
   s_layout : option json;                   (* register.layout *)
   s_in_xy : bool;
   s_mag : list float;                       (* seq.magnetic_field *)
@@ -366,14 +366,30 @@ Definition remove_kwarg_if_default (data : list (string * val)) (meth kw : strin
   | _, _ => data
   end.
 
-Fixpoint index_of (s : string) (l : list string) (i : Z) : option Z :=
-  match l with
-  | [] => None
-  | x :: r => if String.eqb s x then Some i else index_of s r (i + 1)
+(** qubit ids are strings or integers; [==] between them *)
+Definition qid_eqb (a b : val) : bool :=
+  match a, b with
+  | VStr x, VStr y => String.eqb x y
+  | VInt x, VInt y => Z.eqb x y
+  | _, _ => false
   end.
 
-Definition qid_of (v : val) : option string :=
-  match v with VStr s => Some s | _ => None end.
+Fixpoint index_of (q : val) (l : list val) (i : Z) : option Z :=
+  match l with
+  | [] => None
+  | x :: r => if qid_eqb q x then Some i else index_of q r (i + 1)
+  end.
+
+Definition qid_of (v : val) : option val :=
+  match v with VStr _ | VInt _ => Some v | _ => None end.
+
+(** [str(id)] *)
+Definition str_of_qid (v : val) : option string :=
+  match v with
+  | VStr s => Some s
+  | VInt z => Some (NilZero.string_of_int (Z.to_int z))
+  | _ => None
+  end.
 
 (** [unfold_targets] *)
 Definition unfold_targets (v : val) : val :=
@@ -383,7 +399,7 @@ Definition unfold_targets (v : val) : val :=
   end.
 
 (** [convert_targets(ids, force_list_out)] *)
-Definition convert_targets (qids : list string) (v : val) (force_list : bool) : option val :=
+Definition convert_targets (qids : list val) (v : val) (force_list : bool) : option val :=
   match unfold_targets v with
   | VList l =>
       do idx <- mapM (fun x => do q <- qid_of x; index_of q qids 0) l;
@@ -391,6 +407,13 @@ Definition convert_targets (qids : list string) (v : val) (force_list : bool) : 
   | x =>
       do q <- qid_of x; do i <- index_of q qids 0;
       Some (if force_list then VList [VInt i] else VInt i)
+  end.
+
+(** [stringify_qubit_ids] *)
+Definition stringify (v : val) : option val :=
+  match v with
+  | VList l => do qs <- mapM (fun x => do q <- str_of_qid x; Some (VStr q)) l; Some (VList qs)
+  | _ => None
   end.
 
 Definition jobj_of (d : list (string * val)) : option (list (string * json)) := mapM_vals enc d.
@@ -471,7 +494,8 @@ Definition enc_call_ops (s : seqin) (c : call) : option (list json) :=
   else if String.eqb n "config_slm_mask" then
     do data <- get_all_args n ["qubits"; "dmm_id"] c;
     do q <- dget "qubits" data; do d <- dget "dmm_id" data;
-    do jq <- enc q; do jd <- enc d;
+    do qs <- stringify q;
+    do jq <- enc qs; do jd <- enc d;
     if s_in_xy s && opt_all (meth_default n "dmm_id") (fun dd => val_is_json d dd)
     then Some []
     else Some [JObj [("op", JStr "config_slm_mask"); ("qubits", jq); ("dmm_id", jd)]]
@@ -520,7 +544,8 @@ Definition enc_call_slm_legacy (s : seqin) (c : call) : option (list json) :=
   if String.eqb (c_name c) "config_slm_mask" then
     do data <- get_all_args "config_slm_mask" ["qubits"; "dmm_id"] c;
     do q <- dget "qubits" data; do d <- dget "dmm_id" data;
-    do jq <- enc q;
+    do qs <- stringify q;
+    do jq <- enc qs;
     if s_in_xy s && opt_all (meth_default "config_slm_mask" "dmm_id") (fun dd => val_is_json d dd)
     then Some [jq] else Some []
   else Some [].
@@ -990,12 +1015,6 @@ Definition bind_call (meth : string) (c : call) : option (list (string * val)) :
 
 Definition normed (k : string) (d : list (string * val)) : option (string * val) :=
   do v <- dget k d; do v' <- norm v; Some (k, v').
-
-Definition stringify (v : val) : option val :=
-  match v with
-  | VList l => do qs <- mapM (fun x => do q <- qid_of x; Some (VStr q)) l; Some (VList qs)
-  | _ => None
-  end.
 
 Definition is_legacy_slm (s : seqin) (d : list (string * val)) : bool :=
   s_in_xy s && match dget "dmm_id" d with
